@@ -311,6 +311,11 @@ def dispatch_cases():
     if _DISP:
         return _DISP
     W = [8, 16, 32, 64]
+    # modules that declare BOTH accelerators, in either order: the library call must name an accelerator that declares the kernel
+    for acc in ("snax_gemmx+snax_alu", "snax_alu+snax_gemmx"):
+        for k in ("add", "mul", "mac"):
+            for t in itertools.product([8, 32, 64], repeat=3):
+                _DISP.append((acc, k, t))
     for acc in ("snax_gemmx", "snax_alu"):
         for k in ("add", "mul", "mac"):
             for t in itertools.product(W, repeat=3):
@@ -323,8 +328,9 @@ def dispatch_cases():
 def eval_dispatch(r: CaseResult, idx):
     acc, k, t = dispatch_cases()[idx]
     ctx = common.ctx()
-    a = ctx.get_acc(acc)
-    decl = "  " + common.to_text(a.generate_acc_op()) + "\n"
+    accs = [ctx.get_acc(n) for n in acc.split("+")]
+    a = accs[0]
+    decl = "".join("  " + common.to_text(x.generate_acc_op()) + "\n" for x in accs)
     nin = len(t) - 1
     fargs = ", ".join(f"%m{i} : memref<8x{ty(t[i])}>" for i in range(nin + 1))
     bargs = ", ".join(f"%a{i} : {ty(t[i])}" for i in range(nin + 1))
@@ -358,6 +364,16 @@ def eval_dispatch(r: CaseResult, idx):
     kop_ir = g.body.block.first_op
     have = [o.type for o in kop_ir.operands] + [x.type for x in kop_ir.results]
     supported = any(sk.kernel_type is type(kop_ir) and list(sk.operand_types) == have for sk in a.supported_kernels)
+    if len(accs) > 1:
+        declaring = [x.name for x in accs if any(sk.kernel_type is type(kop_ir) and list(sk.operand_types) == have for sk in x.supported_kernels)]
+        r.obs = (acc, k, t, lib)
+        r.nontrivial = lib is not None
+        r.states = 1
+        r.validated = 1
+        r.sample = dict(kind="dispatch", accelerators=acc, kernel=k, types=[ty(x) for x in t], library_call=lib, declared_by=declaring)
+        if lib is not None and not any(lib == n or lib == n + "_stream" for n in declaring):
+            r.violate(key + "|unsupported", case, f"kernel.{k} with types {[ty(x) for x in t]} in a module declaring {acc} was dispatched to {lib}; the accelerators that declare it: {declaring}")
+        return
     r.obs = (acc, k, t, lib)
     r.nontrivial = lib is not None
     r.states = 1
